@@ -97,6 +97,11 @@ def declare(spec):
     SIGKEEP = ("(length(siglog) >= length(old(siglog)) and forall(INT, lambda i: implies(0 <= i and "
                "i < length(old(siglog)), siglog[i] == old(siglog)[i])))")
     GATE = ("ite('before_signal' in self.hooks, ev_pid(hooklog[length(old(hooklog))]) == 1, True)")
+    # Watcher._found_wids only ever holds an empty container: [] from __init__, {} after the first spawn_processes
+    # (never populated anywhere: frame-scans found-wids-writers / found-wids-mutators)
+    spec.pred('found_empty', [('w', Ref('Watcher'))],
+              "(is_list(w._found_wids) and length(vlist_of(w._found_wids)) == 0) or "
+              "(is_obj(w._found_wids) and obj_size(w._found_wids) == 0)")
     spec.pred('wf_procs_pid', [('w', Ref('Watcher'))],
               "forall(INT, lambda k: implies(k in w.processes, not isnull(w.processes[k]) and w.processes[k].pid == k))")
     spec.add(Contract(
@@ -187,6 +192,8 @@ def declare(spec):
             'forall(INT, lambda i: implies(0 <= i and i < %s, process.klog[i] == old(process.klog)[i]))' % N0,
             'implies(excl, %s)' % spec.consts['$PROT'], 'wf_procs_pid(self)', 'excl == old(excl)',
             'clock >= old(clock)', spec.consts['$LOGS'],
+            "same_field('Process.pid', 'Process.wid', 'Process.started')",
+            'implies(old(found_empty(self)), found_empty(self))',
         ],
         modifies=['process.klog', 'process.naps', 'process.alive_seen', 'process.stopping', 'process.closed', '*'],
         ghost_at={
@@ -206,6 +213,8 @@ def declare(spec):
             "waited <= 0 or waited - real(1) / 10 < as_real(graceful_timeout)",
             "implies(excl, %s)" % spec.consts['$PROT'], "excl == old(excl)", "clock >= old(clock)",
             spec.consts['$LOGS'],
+            "same_field('Process.pid', 'Process.wid', 'Process.started')",
+            'implies(old(found_empty(self)), found_empty(self))',
         ], variant="as_real(graceful_timeout) - waited", fingerprint='while:waited < graceful_timeout')},
     ))
 
@@ -317,7 +326,8 @@ def declare(spec):
                   'is_none(graceful_timeout) or is_num(graceful_timeout)', 'self.graceful_timeout >= 0',
                   'implies(is_num(graceful_timeout), as_real(graceful_timeout) >= 0)'],
         ensures=['implies(excl, %s)' % PROT, 'wf_procs_pid(self)', 'excl == old(excl)', 'clock >= old(clock)',
-                 spec.consts['$LOGS']],
+                 spec.consts['$LOGS'], 'implies(old(found_empty(self)), found_empty(self))',
+                 "same_field('Process.pid', 'Process.wid', 'Process.started')"],
         modifies=['*']))
     spec.add(Contract('$method.close', params={'self': VAL}, trusted=True, modifies=[],
                       note='A-STREAMS: closing a user stream object returns and does not touch supervisor state'))
@@ -340,6 +350,7 @@ def declare(spec):
             prot(exc=('Watcher.processes', 'Watcher._status', 'Watcher.stream_redirector', 'reaplog')),
             spec.consts['$LOGS'],
             'clock >= old(clock)',
+            'implies(old(found_empty(self)), found_empty(self))',
         ],
         modifies=['*']))
 
@@ -439,7 +450,8 @@ def declare(spec):
             "q.wid == at('loop0_pre', q.wid) and q.started == at('loop0_pre', q.started) and "
             "q.stopping == at('loop0_pre', q.stopping) and q.closed == at('loop0_pre', q.closed) and "
             "q.klog == at('loop0_pre', q.klog) and q.name == at('loop0_pre', q.name) and "
-            "q.naps == at('loop0_pre', q.naps) and q.alive_seen == at('loop0_pre', q.alive_seen)))",
+            "q.naps == at('loop0_pre', q.naps) and q.alive_seen == at('loop0_pre', q.alive_seen) and "
+            "q._worker == at('loop0_pre', q._worker)))",
         ], fingerprint='while:nb_tries < self.max_retry or self.max_retry == -1',
             # only failed creation attempts come back to the loop head
             modifies=['K_alive', 'clock', 'new:Process', 'Process.*'])},
@@ -455,7 +467,7 @@ def declare(spec):
     PACED = ("forall(INT, lambda i: implies(length(old(spawnlog)) <= i and i + 1 < length(spawnlog), "
              "sig_t(spawnlog[i + 1]) >= sig_t(spawnlog[i]) + old(self.warmup_delay)))")
     LIFE_REQ = ['excl', 'wf_w(self)', 'not self.on_demand', 'not isnull(self.arbiter)',
-                'is_list(self._found_wids) and length(vlist_of(self._found_wids)) == 0', 'is_str(self.cmd)',
+                'found_empty(self)', 'is_str(self.cmd)',
                 'self.warmup_delay >= 0', 'self.graceful_timeout >= 0']
     spec.add(Contract(
         'circus.watcher:Watcher.spawn_processes', kind='coroutine', rely='held',
@@ -479,6 +491,8 @@ def declare(spec):
             prot(exc=('Watcher.processes', 'Watcher._status', 'Watcher.stream_redirector', 'Watcher._found_wids',
                       'spawnlog', 'spevlog', 'reaplog', 'K_child')),
             "implies(self._status != 'stopped', reaplog == old(reaplog))", spec.consts['$LOGS'],
+            'found_empty(self)', 'clock >= old(clock)',
+            "forall(Ref('Watcher'), lambda w: implies(w != self, w.processes == old(w.processes) and w._status == old(w._status)))",
         ],
         raises={'RuntimeError': []},
         modifies=['*'],
@@ -498,7 +512,8 @@ def declare(spec):
                 "implies(length(spawnlog) > length(old(spawnlog)), clock >= sig_t(last(spawnlog)) + old(self.warmup_delay))",
                 "self.numprocesses == old(self.numprocesses)", "self.warmup_delay == old(self.warmup_delay)",
                 "not self.on_demand", "not isnull(self.arbiter)", "is_str(self.cmd)", "self.graceful_timeout >= 0",
-                'clock >= old(clock)', 'reaplog == old(reaplog)', spec.consts['$LOGS'],
+                'clock >= old(clock)', 'reaplog == old(reaplog)', spec.consts['$LOGS'], 'found_empty(self)',
+                "forall(Ref('Watcher'), lambda w: implies(w != self, w.processes == old(w.processes) and w._status == old(w._status)))",
                 prot(exc=('Watcher.processes', 'Watcher._found_wids', 'spawnlog', 'spevlog', 'reaplog', 'K_child')),
             ], fingerprint='for:range(self.numprocesses - len(self.processes))'),
         },
